@@ -34,9 +34,9 @@ func vfEncodeDatagram(f vfDatagramFields) []byte {
 	return d
 }
 
-func vfPairOfStates(shapes []vfShape, nc int, mtus []int) (k1, k2 *KCP, em1, em2 *[]vfEmit, z vfShiftT) {
+func vfPairOfStates(shapes []vfShape, nc int, mtus []int, split int) (k1, k2 *KCP, em1, em2 *[]vfEmit, z vfShiftT) {
 	em1, em2 = new([]vfEmit), new([]vfEmit)
-	vfSplitLive = true
+	vfSplitLive = vfSplitSegs | split
 	sh := vfPickShapeFrom(shapes)
 	k1 = vfNewKCP("", vfCfg{mtus: mtus, nc: nc}, em1)
 	vfArbitraryKCP("", k1, sh)
@@ -45,7 +45,7 @@ func vfPairOfStates(shapes []vfShape, nc int, mtus []int) (k1, k2 *KCP, em1, em2
 	k2 = vfNewKCP("", vfCfg{mtus: mtus, nc: nc}, em2)
 	vfArbitraryKCP("", k2, sh)
 	vfShiftCur = vfShiftT{}
-	vfSplitLive = false
+	vfSplitLive = 0
 	// pooled payload buffers have unconstrained contents: make the two copies hold the same bytes
 	sync := func(a, b *RingBuffer[segment]) {
 		for i := 0; i < a.Len(); i++ {
@@ -128,7 +128,7 @@ func vfEmittedRelated(l string, e1, e2 []vfEmit, z vfShiftT) {
 }
 
 func vfC12Input(shapes []vfShape) {
-	k1, k2, em1, em2, z := vfPairOfStates(shapes, 1, []int{60, 1400})
+	k1, k2, em1, em2, z := vfPairOfStates(shapes, 1, []int{1400}, 0)
 	vfAssume(k1.probe == 0)
 	var f vfDatagramFields
 	f.conv = vfU32("dg_conv")
@@ -169,11 +169,17 @@ func vfC12Input(shapes []vfShape) {
 	vfEmittedRelated("c12/input", *em1, *em2, z)
 }
 
-func vfH_C12_input_recv() { vfC12Input(vfShapesRecv) }
-func vfH_C12_input_send() { vfC12Input(vfShapesSend) }
+func vfH_C12_input_recv() { vfC12Input(vfShapesC12Recv) }
+func vfH_C12_input_send() { vfC12Input(vfShapesC12Send) }
+
+// relational queries are several times more expensive than single-copy ones: small families (quick)
+var vfShapesC12Flush = []vfShape{{1, 1, 0, 0, 1}, {0, 1, 0, 0, 2}}
+var vfShapesC12Send = []vfShape{{1, 0, 0, 0, 0}, {2, 0, 0, 0, 0}}
+var vfShapesC12Recv = []vfShape{{0, 0, 1, 1, 0}, {0, 0, 0, 2, 1}}
+var vfShapesC12Mixed = []vfShape{{0, 0, 1, 1, 0}, {0, 1, 2, 0, 0}, {1, 0, 0, 2, 0}}
 
 func vfH_C12_flush() {
-	k1, k2, em1, em2, z := vfPairOfStates(vfShapesQuick, 1, []int{60, 1400})
+	k1, k2, em1, em2, z := vfPairOfStates(vfShapesC12Flush, 1, []int{1400}, vfSplitProbe)
 	now := vfU32("now")
 	ft := FlushType(vfPick("ft", 1, 2))
 	vfReach("pre")
@@ -182,15 +188,13 @@ func vfH_C12_flush() {
 	vfSetClock(now + z.dt)
 	r2 := k2.flush(ft)
 	vfReach("post")
-	vfShow("r1", r1)
-	vfShow("r2", r2)
 	vfAssert("c12/flush/same-interval", r1 == r2)
 	vfRelated("c12/flush", k1, k2, z)
 	vfEmittedRelated("c12/flush", *em1, *em2, z)
 }
 
 func vfH_C12_flush_cc() {
-	k1, k2, em1, em2, z := vfPairOfStates(vfShapesSend, 0, []int{28})
+	k1, k2, em1, em2, z := vfPairOfStates(vfShapesC12Send, 0, []int{28}, 0)
 	now := vfU32("now")
 	vfReach("pre")
 	vfSetClock(now)
@@ -204,7 +208,7 @@ func vfH_C12_flush_cc() {
 }
 
 func vfH_C12_update_check() {
-	k1, k2, em1, em2, z := vfPairOfStates(vfShapesSend, 1, []int{1400})
+	k1, k2, em1, em2, z := vfPairOfStates(vfShapesC12Send, 1, []int{1400}, vfSplitUpdated)
 	now := vfU32("now")
 	vfReach("pre")
 	vfSetClock(now)
@@ -222,7 +226,7 @@ func vfH_C12_update_check() {
 }
 
 func vfH_C12_recv_send() {
-	k1, k2, _, _, z := vfPairOfStates(vfShapesQuick, 1, []int{1400})
+	k1, k2, _, _, z := vfPairOfStates(vfShapesC12Mixed, 1, []int{1400}, 0)
 	vfReach("pre")
 	b1, b2 := make([]byte, 8), make([]byte, 8)
 	n1, n2 := k1.Recv(b1), k2.Recv(b2)
